@@ -62,16 +62,20 @@ impl LockfreeArena {
     /// the attempted amount surpasses `max_memory_usage`
     // TODO: Make this return a `Result`
     fn allocate_memory(&self, requested_mem: usize) -> LassoResult<()> {
-        if self.memory_usage.load(Ordering::Relaxed) + requested_mem
-            > self.max_memory_usage.load(Ordering::Relaxed)
-        {
-            Err(LassoError::new(LassoErrorKind::MemoryLimitReached))
-        } else {
-            self.memory_usage
-                .fetch_add(requested_mem, Ordering::Relaxed);
+        let max_memory_usage = self.max_memory_usage.load(Ordering::Relaxed);
 
-            Ok(())
-        }
+        // Check the limit and claim the memory in one atomic step, otherwise concurrent callers
+        // could all pass the check first and then overshoot the limit together
+        self.memory_usage
+            .fetch_update(Ordering::Relaxed, Ordering::Relaxed, |memory_usage| {
+                if memory_usage + requested_mem > max_memory_usage {
+                    None
+                } else {
+                    Some(memory_usage + requested_mem)
+                }
+            })
+            .map(|_| ())
+            .map_err(|_| LassoError::new(LassoErrorKind::MemoryLimitReached))
     }
 
     /// Store a slice in the Arena, returning `None` if memory is exhausted
